@@ -35,6 +35,9 @@ pub enum BOp {
     Continue,
     /// abandon the builder and continue from an otherwise empty module whose header bound is this value
     ContinueFromBound(u32),
+    /// scale: direct calls with sizes at 16-bit boundaries (0: string of n bytes, 1: type_struct with n members,
+    /// 2: n undefs of a 64-bit int type followed by a 64-bit constant of it)
+    Scale(u8, u32),
 }
 
 #[derive(Clone, Debug, PartialEq)]
@@ -182,6 +185,11 @@ pub struct Drv {
     pub reserved: Vec<u32>,
     /// result ids of ext_inst_import calls
     pub import_ids: Vec<u32>,
+    /// result ids of functions / struct types / constants by value (conjunction hot spots)
+    pub function_ids: Vec<u32>,
+    pub struct_ids: Vec<u32>,
+    pub type_ids: Vec<u32>,
+    pub constants: Vec<(u32, u32, u32)>, // (id, type, value)
 }
 
 impl Drv {
@@ -197,6 +205,10 @@ impl Drv {
             continued_from_bound: None,
             reserved: vec![],
             import_ids: vec![],
+            function_ids: vec![],
+            struct_ids: vec![],
+            type_ids: vec![],
+            constants: vec![],
         };
         // a few ids nothing defines: used as switch selectors and as "unknown" result types
         for _ in 0..3 {
@@ -397,6 +409,40 @@ impl Drv {
                     self.all_ids.clear();
                     self.reserved.clear();
                     self.import_ids.clear();
+                    self.function_ids.clear();
+                    self.struct_ids.clear();
+                    self.type_ids.clear();
+                    self.constants.clear();
+                    Ret::Unit
+                })
+            }
+            BOp::Scale(kind, n) => {
+                rep.kind = CallKind::SetVersion; // judged like a call that must not touch the selection
+                rep.what = format!("scale lane {} with n={}", kind, n);
+                let n = *n as usize;
+                let b = &mut self.b;
+                let ids: Vec<u32> = self.defined.iter().chain(self.untyped.iter()).cloned().collect();
+                let kind = *kind;
+                guarded(move || {
+                    match kind {
+                        0 => {
+                            let st: String = (0..n).map(|k| if k % 97 == 0 { 'x' } else { 'a' }).collect();
+                            b.string(st);
+                        }
+                        1 => {
+                            let members: Vec<u32> = (0..n).map(|k| ids[k % ids.len()]).collect();
+                            b.type_struct_id(None, members);
+                        }
+                        _ => {
+                            // tens of thousands of typed ids first, the 64-bit type and its constant after them
+                            let t32 = b.type_int_id(None, 32, 0);
+                            for _ in 0..n {
+                                b.undef(t32, None);
+                            }
+                            let t = b.type_float_id(None, 64, None);
+                            b.constant_bit64(t, 0x0123_4567_89AB_CDEF);
+                        }
+                    }
                     Ret::Unit
                 })
             }
@@ -465,6 +511,7 @@ impl Drv {
                             want.ops[0] = MOp::W(s.k_idref, set);
                             groups[0].items[0][0] = MOp::W(s.k_idref, set);
                         }
+                        self.bias_arguments(bind.name, *arg_seed, &mut want, &mut groups);
                         let has_rid = s.inst(bind.opcode).map(|gi| gi.operands.iter().any(|(k, _)| s.cat(*k) == crate::snapshot::Cat::IdResult)).unwrap_or(false);
                         let rid_explicit = if bind.has_result_id_param && *explicit_rid { Some(self.fresh_untracked()) } else { None };
                         want.rid = if has_rid { rid_explicit } else { None };
@@ -511,9 +558,23 @@ impl Drv {
             }
         }
         if let Delta::Added(_, _, inst) = delta(&rep.pre, &rep.post) {
-            if inst.is("ExtInstImport") {
-                if let Some(rid) = inst.rid {
+            if let Some(rid) = inst.rid {
+                if inst.is("ExtInstImport") {
                     self.import_ids.push(rid);
+                }
+                if inst.is("Function") {
+                    self.function_ids.push(rid);
+                }
+                if inst.is("TypeStruct") {
+                    self.struct_ids.push(rid);
+                }
+                if inst.name().starts_with("Type") {
+                    self.type_ids.push(rid);
+                }
+                if inst.is("Constant") {
+                    if let (Some(t), Some(MOp::W(_, v))) = (inst.rtype, inst.ops.first()) {
+                        self.constants.push((rid, t, *v));
+                    }
                 }
             }
             if let Some(rid) = inst.rid {
@@ -543,6 +604,123 @@ impl Drv {
             }
         }
         rep
+    }
+
+    /// Conjunction hot spots: nudge the grammar-directed arguments of a few methods towards values that
+    /// relate to what the history already contains (same names, ids of functions / structs / constants).
+    /// `want.ops` and `groups` are kept in sync (ops = flattened groups).
+    fn bias_arguments(&self, name: &str, seed: u64, want: &mut MInst, groups: &mut [crate::producer::Group]) {
+        let s = snap();
+        let pick = |v: &Vec<u32>, k: u64| v[(k as usize) % v.len()];
+        let mut touched = false;
+        let set_word = |groups: &mut [crate::producer::Group], gi: usize, val: u32| {
+            if let Some(g) = groups.get_mut(gi) {
+                if let Some(item) = g.items.first_mut() {
+                    if let Some(MOp::W(_, v)) = item.first_mut() {
+                        *v = val;
+                        return true;
+                    }
+                }
+            }
+            false
+        };
+        let set_str = |groups: &mut [crate::producer::Group], gi: usize, val: &str| {
+            if let Some(g) = groups.get_mut(gi) {
+                if let Some(item) = g.items.first_mut() {
+                    if let Some(MOp::S(v)) = item.first_mut() {
+                        *v = val.to_string();
+                        return true;
+                    }
+                }
+            }
+            false
+        };
+        let names = ["main", "f", "main", "g"];
+        match name {
+            // names that select_function_by_name looks for, attached to real functions
+            "entry_point" => {
+                if seed % 2 == 0 && !self.function_ids.is_empty() {
+                    touched |= set_word(groups, 1, pick(&self.function_ids, seed / 2));
+                }
+                if seed % 3 != 0 {
+                    touched |= set_str(groups, 2, names[(seed / 3 % 4) as usize]);
+                }
+            }
+            "name" => {
+                if seed % 2 == 0 && !self.function_ids.is_empty() {
+                    touched |= set_word(groups, 0, pick(&self.function_ids, seed / 2));
+                }
+                if seed % 3 != 0 {
+                    touched |= set_str(groups, 1, names[(seed / 3 % 4) as usize]);
+                }
+            }
+            // decorations of a type that an identical request may later want to deduplicate against
+            "decorate" => {
+                if seed % 2 == 0 && !self.type_ids.is_empty() {
+                    touched |= set_word(groups, 0, *self.type_ids.last().unwrap());
+                }
+                if seed % 3 == 0 {
+                    let k = s.kind("Decoration");
+                    let block = s.enums[&k].values.iter().find(|(_, n)| n.as_str() == "Block" || n.as_str() == "BufferBlock").map(|(v, _)| *v);
+                    if let (Some(v), Some(g)) = (block, groups.get_mut(1)) {
+                        if let Some(item) = g.items.first_mut() {
+                            item.truncate(1);
+                            item[0] = MOp::W(k, if seed % 2 == 0 { v } else { v + 1 });
+                            touched = true;
+                        }
+                    }
+                }
+            }
+            // recursive types: forward pointer to a reserved id, struct containing it, pointer to that struct
+            "type_forward_pointer" => {
+                if !self.reserved.is_empty() && seed % 2 == 0 {
+                    touched |= set_word(groups, 0, self.reserved[0]);
+                }
+                touched |= set_word(groups, 1, [7u32, 2, 12][(seed % 3) as usize]); // Function / Uniform / StorageBuffer
+            }
+            "type_struct" | "type_struct_id" => {
+                if let Some(g) = groups.get_mut(0) {
+                    if seed % 4 != 0 {
+                        // members = a stable prefix of the declared types, so that equal requests recur
+                        let k = (seed % 3) as usize;
+                        g.items = self.type_ids.iter().take(k).map(|id| vec![MOp::W(s.k_idref, *id)]).collect();
+                        touched = true;
+                    }
+                    if !self.reserved.is_empty() && seed % 5 == 0 {
+                        g.items.push(vec![MOp::W(s.k_idref, self.reserved[0])]);
+                        touched = true;
+                    }
+                }
+            }
+            "type_pointer" => {
+                touched |= set_word(groups, 0, [7u32, 2, 12][(seed % 3) as usize]);
+                if !self.struct_ids.is_empty() && seed % 2 == 0 {
+                    touched |= set_word(groups, 1, *self.struct_ids.last().unwrap());
+                }
+            }
+            // arrays whose lengths are (possibly different) constants of equal value
+            "constant_bit32" | "spec_constant_bit32" => {
+                touched |= set_word(groups, 0, (seed % 5) as u32 + 1);
+                if let Some(t) = self.one_word_types.first() {
+                    if seed % 4 != 0 {
+                        want.rtype = Some(*t);
+                    }
+                }
+            }
+            "type_array" | "type_array_id" => {
+                if !self.constants.is_empty() && seed % 4 != 0 {
+                    let (id, _, _) = self.constants[(seed / 4) as usize % self.constants.len()];
+                    touched |= set_word(groups, 1, id);
+                    if !self.type_ids.is_empty() {
+                        touched |= set_word(groups, 0, self.type_ids[0]);
+                    }
+                }
+            }
+            _ => {}
+        }
+        if touched {
+            want.ops = groups.iter().flat_map(|g| g.items.iter().flatten().cloned()).collect();
+        }
     }
 
     /// an id to be passed as an explicit result id: one reserved earlier (if any, half of the time)
